@@ -14,7 +14,7 @@ modules = {'codec': 'lib/Chars, CodecOps, Codec, CodecBuild, trace/CodecTrace', 
            'datebounds': 'DateBounds, trace/DateBoundsTrace', 'datecompare': 'DateCompareRel, DateCompareOps, DateCompare, apalache/DateCompareInd, trace/DateCompareTrace',
            'nodeheap': 'NodeHeapOps, NodeHeap, trace/NodeHeapTrace', 'mergedocs': 'MergeDocsOps, MergeDocs, trace/MergeDocsTrace',
            'matching': 'MatchingOps, MatchingLogOps, Matching (PlusCal), trace/MatchingTrace', 'similarity': 'SimilarityOps, Similarity, trace/SimilarityTrace',
-           'document': 'DocumentOps, Document, trace/DocumentTrace', 'commands': 'CommandsOps, Commands, trace/CommandsTrace',
+           'document': 'DocumentOps, Document, trace/DocumentTrace', 'commands': 'CommandsOps, Commands, DiffPageOps, DiffPage (PlusCal), trace/CommandsTrace, trace/DiffPageTrace',
            'query': 'QueryOps, Query, trace/QueryTrace, trace/QueryCrashTrace', 'publish': 'PublishOps, Publish (PlusCal), PublishCases, trace/PublishTrace',
            'htmlstructure': 'HtmlStructureOps, HtmlStructure, trace/HtmlStructureTrace', 'warnings': 'WarningsOps, Warnings, trace/WarningsTrace'}
 
